@@ -111,8 +111,17 @@ def close(a, b):
     return a == b
 
 
-def diff(c1, c2):
-    """List of (what, detail) differences between two canonical forms."""
+def _same(a, b, broadcast):
+    if broadcast and isinstance(a, list) and isinstance(b, list) and len(a) != len(b) and min(len(a), len(b)) == 1:
+        n = max(len(a), len(b))
+        a, b = (a * n if len(a) == 1 else a), (b * n if len(b) == 1 else b)
+    return close(a, b)
+
+
+def diff(c1, c2, broadcast_attrs=False):
+    """List of (what, detail) differences between two canonical forms.
+    broadcast_attrs: an attribute given as one value for a whole array variable (Modelica `each`) equals the
+    same value repeated for every element (default off: lengths must agree)."""
     out = []
     for key in ("variables", "string_parameters", "string_constants", "outputs", "delay_states", "aliases", "variable_aliases"):
         if c1[key] != c2[key]:
@@ -122,6 +131,6 @@ def diff(c1, c2):
         for k in ks:
             if k not in c1[sect] or k not in c2[sect]:
                 out.append((sect + ":" + str(k[-1]), "%r only on one side" % (k,)))
-            elif not close(c1[sect][k], c2[sect][k]):
+            elif not _same(c1[sect][k], c2[sect][k], broadcast_attrs and sect == "attrs"):
                 out.append((sect + ":" + str(k[-1]), "%r: %r != %r" % (k, c1[sect][k], c2[sect][k])))
     return out
